@@ -377,6 +377,8 @@ structure Codec where
   unlz4 : Bytes → Nat → Option Bytes
   snappy : Bytes → Option Bytes
   unsnappy : Bytes → Option Bytes
+  /-- `snap::raw::decompress_len`: the uncompressed size declared in the block's preamble. -/
+  snappyLen : Bytes → Option Nat
 
 /-- `compress_append` (what it appends): LZ4 = `uncomp_body.len() as u32` big-endian, then the block. -/
 def compressAppend (k : Codec) (c : Compression) (body : Bytes) : Except Err Bytes :=
@@ -387,14 +389,20 @@ def compressAppend (k : Codec) (c : Compression) (body : Bytes) : Except Err Byt
     | some b => .ok b
     | none => .error .snapCompress
 
-/-- `decompress`. -/
+/-- `decompress` (`frame/mod.rs:301-345`), including the size guards in front of the allocating decoders: an LZ4 body
+whose declared size exceeds `comp_body.len() * 255 + 64`, or a Snappy body whose declared size exceeds
+`comp_body.len() * 64 + 64`, is rejected before decoding.  (`usize::saturating_mul/add` never saturate for buffers
+that fit a 64-bit address space, so plain `Nat` arithmetic is exact.) -/
 def decompress (k : Codec) (c : Compression) (comp : Bytes) : Option Bytes :=
   match c with
   | .lz4 =>
     match ReqParse.rdU32 comp with
-    | some (n, rest) => k.unlz4 rest n
+    | some (n, rest) => if n > rest.length * 255 + 64 then none else k.unlz4 rest n
     | none => none
-  | .snappy => k.unsnappy comp
+  | .snappy =>
+    match k.snappyLen comp with
+    | none => none
+    | some n => if n > comp.length * 64 + 64 then none else k.unsnappy comp
 
 /-! ### the frame (`SerializedRequest::make`) -/
 
@@ -436,6 +444,47 @@ def encodeFrameOf (k : Codec) (body : Except Err Bytes) (op : Nat) (comp : Optio
 /-- `set_stream`. -/
 def setStream (f : Bytes) (stream : Int16) : Bytes :=
   f.take 2 ++ be16 stream.toUInt16.toNat ++ f.drop 4
+
+/-! ### length-only abstraction of one oversize field (for inputs that cannot be materialised)
+
+`bigFieldErr what n`: what `encodeBody` / `mkSerVals` / `encodeBatchA` answers for the request shape the harness builds
+for `biglen <what> <n>` when the named field is `n` bytes long and every other field is small: `none` = accepted,
+`some e` = refused with `e`.  `Props.C09.bigField_sound` proves that this is exactly the encoder's answer for *every*
+byte string of that length. -/
+
+inductive BigField where
+  | queryStatement | prepareStatement | batchStatement | value | pagingState | executePagingState | authResponse
+  | adapterValue
+  deriving Repr, DecidableEq
+
+def bigFieldErr (what : BigField) (n : Nat) : Option Err :=
+  match what with
+  | .queryStatement => if (writeIntLength n).isSome then none else some .queryStatementString
+  | .prepareStatement => if (writeIntLength n).isSome then none else some .prepareStatementString
+  | .batchStatement => if (writeIntLength n).isSome then none else some (.batchStmt 0 .statementString)
+  | .value => if n < 2 ^ 31 then none else some .valueTooBig
+  | .pagingState => if (writeIntLength n).isSome then none else some .queryBadPagingState
+  | .executePagingState => if (writeIntLength n).isSome then none else some .executeBadPagingState
+  | .authResponse => if (writeIntLength n).isSome then none else some .authResponse
+  | .adapterValue => if n < 2 ^ 31 then none else some (.batchStmt 0 .values)
+
+/-- `QueryParameters::default()` (consistency `LocalQuorum`, nothing else). -/
+def defaultParams : Params :=
+  { consistency := .localQuorum, serialConsistency := none, timestamp := none, pageSize := none, pagingState := none,
+    skipMetadata := false, values := [] }
+
+/-- The result of the request the harness builds for `biglen <what>` with the big field `b`. -/
+def bigFieldRun (what : BigField) (b : Bytes) : Except Err Unit :=
+  let unit (r : Except Err Bytes) : Except Err Unit := match r with | .ok _ => .ok () | .error e => .error e
+  match what with
+  | .queryStatement => unit (encodeBody (.query b defaultParams))
+  | .prepareStatement => unit (encodeBody (.prepare b))
+  | .batchStatement => unit (encodeBody (.batch .logged [.query b] [[]] .one none none))
+  | .value => match mkSerVals [.val b] with | .ok _ => .ok () | .error e => .error e
+  | .pagingState => unit (encodeBody (.query [0x78] { defaultParams with pagingState := some b }))
+  | .executePagingState => unit (encodeBody (.execute [0x01] none { defaultParams with pagingState := some b }))
+  | .authResponse => unit (encodeBody (.authResponse (some b)))
+  | .adapterValue => unit (encodeBatchA .logged [(.prepared [0x01], 1)] [[.val b]] .one none none)
 
 /-! ### what the caller asked for, in the parser's vocabulary -/
 
